@@ -705,3 +705,63 @@ def fresh_name(prefix):
 def reset_fresh():
     global _counter
     _counter = itertools.count()
+
+
+# ------------------------------------------------------------------ finite-scope grounding (G rendering)
+
+REF_PREFIXES = ('r', 'l', 'p', 'c', 'a', 'b', 'd')
+IDX_PREFIXES = ('i', 'j', 'q', 'k')
+
+
+def bvar_kind(name):
+    """bound variables are named  <letter>!t  (invariants) or  k!<prefix...>!<n>  (fresh)"""
+    base = name
+    if name.startswith('k!'):
+        base = name[2:]
+    ch = base[0]
+    if ch in ('i', 'j', 'q'):
+        return 'idx'
+    if ch in REF_PREFIXES:
+        return 'ref'
+    return 'idx'
+
+
+def ground(t, refdom, idxdom, cache=None):
+    """Expand every quantifier of t over the finite domains (lists of Int terms)."""
+    if cache is None:
+        cache = {}
+    if t in cache:
+        return cache[t]
+    if t.op in ('forall', 'exists'):
+        bvs = t.args[0]
+        body = t.args[1]
+        doms = [refdom if bvar_kind(v.args[0]) == 'ref' else idxdom for v in bvs]
+        parts = []
+        import itertools as _it
+        for combo in _it.product(*doms):
+            inst = substitute(body, dict(zip(bvs, combo)))
+            parts.append(ground(inst, refdom, idxdom, cache))
+        r = And(*parts) if t.op == 'forall' else Or(*parts)
+        cache[t] = r
+        return r
+    if not t.args:
+        return t
+    new_args = []
+    changed = False
+    for a in t.args:
+        if isinstance(a, T):
+            b = ground(a, refdom, idxdom, cache)
+            changed |= b is not a
+            new_args.append(b)
+        else:
+            new_args.append(a)
+    r = rebuild(t, new_args) if changed else t
+    cache[t] = r
+    return r
+
+
+def has_quantifier(t):
+    for x in subterms(t):
+        if x.op in ('forall', 'exists'):
+            return True
+    return False
